@@ -20,16 +20,27 @@ One row per (entry point or class-table slot) x (pointer-parameter position).
            R4 show(): NULL self is a defined input ("NULL" is appended to the buffer)      -> not claimed
            R5 a guard whose "failure value" is a call (init_from_ptr(self, NULL) == init)  -> NULL is a defined input, not claimed
            R6 anything else without an entry guard                                         -> not claimed (no documented guard)
+           R7 functions that cannot be called in the harness (NOT_CALLABLE: X11/Imlib2)    -> rows listed, never claimed
+Besides "rows" the JSON lists "no_pointer_parameters" (exported entry points with nothing to pair with NULL) and "excluded"
+(declared in include/ but not built in the pinned configuration), so that the header scan of checks/c16.py reports only
+genuinely NEW entry points as UNCLASSIFIED.
 """
 import re, sys, json, os, subprocess
 
-FILES = "str ustr mbuff objpair tok url regexp socket array linked_list dlinked_list strings obj".split()
+FILES = ("str ustr mbuff objpair tok url regexp socket array linked_list dlinked_list strings obj "
+         "msgs mem builtin_hashes options conf module pthreads file").split()
 OWNER = {"str.c": "C01", "ustr.c": "C01", "mbuff.c": "C07", "array.c": "C03", "linked_list.c": "C03", "dlinked_list.c": "C03",
          "strings.c": "C12", "tok.c": "C12", "url.c": "C14", "socket.c": "C14", "objpair.c": "coordinator", "regexp.c": "coordinator",
-         "obj.c": "coordinator"}
+         "obj.c": "coordinator", "msgs.c": "C15/C16/C20", "mem.c": "C15/C16/C20", "builtin_hashes.c": "C18", "options.c": "C08",
+         "conf.c": "C09/C10", "module.c": "coordinator", "pthreads.c": "coordinator", "file.c": "coordinator"}
+# functions whose rows are listed but never claimed, with the reason (review decision)
+NOT_CALLABLE = {"spifmem_x_create_pixmap": "needs an X display", "spifmem_x_free_pixmap": "needs an X display",
+                "spifmem_x_create_gc": "needs an X display", "spifmem_x_free_gc": "needs an X display",
+                "spifmem_imlib_register_pixmap": "needs an X display / Imlib2", "spifmem_imlib_free_pixmap": "needs an X display / Imlib2"}
 SCALAR = {"spif_memidx_t", "size_t", "spif_stridx_t", "spif_ustridx_t", "int", "spif_char_t", "spif_listidx_t", "long", "spif_int32_t",
           "spif_uint8_t", "unsigned long", "unsigned short", "register size_t", "register const char", "...", "spif_bool_t", "double",
-          "spif_uint32_t", "spif_sockport_t", "unsigned int", "char"}
+          "spif_uint32_t", "spif_sockport_t", "unsigned int", "char", "unsigned char", "Drawable", "Pixmap", "spif_tls_handle_t",
+          "spif_uint16_t", "spif_uint64_t", "spif_int64_t", "spif_int16_t", "spif_int8_t", "short"}
 FN = re.compile(r'^(static\s+)?((?:const\s+|unsigned\s+|struct\s+)?[A-Za-z_]\w*(?:\s*\*+)?)\s*\n(\w+)\(([^)]*)\)\s*\n\{', re.M)
 GUARD = re.compile(r'^(ASSERT_RVAL|REQUIRE_RVAL|ASSERT|REQUIRE|SPIF_OBJ_COMP_CHECK_NULL|SPIF_COMP_CHECK_NULL)\s*\((.*)\);$')
 DECL = re.compile(r'^(register\s+|const\s+|unsigned\s+|struct\s+|static\s+)*[A-Za-z_]\w*[\s\*]+\**\w+(\[[^\]]*\])?(\s*=\s*[^;]+)?'
@@ -70,8 +81,12 @@ def parse_functions(repo, name):
             if p == "...":
                 ps.append(["...", "..."])
                 continue
+            arr = p.endswith("[]")                       # "char *argv[]" is "char **argv"
+            if arr:
+                p = p[:-2].strip()
             mm = re.match(r'^(.*?)(\w+)$', p)
-            ps.append([" ".join(mm.group(1).split()).strip(), mm.group(2)])
+            t = " ".join(mm.group(1).split()).strip()
+            ps.append([(t + "*" if t.endswith("*") else t + " *") if arr else t, mm.group(2)])
         guards = []
         for line in body.split("\n"):
             s = line.strip()
@@ -121,7 +136,8 @@ def class_tables(txt, members):
 
 
 def is_ptr(t):
-    return t not in SCALAR
+    t = re.sub(r'\b(register|const)\s+', '', t).strip()
+    return "*" in t or t not in SCALAR
 
 
 def fail_class(val, ret):
@@ -143,7 +159,7 @@ def fail_class(val, ret):
     if "NULL" in v:
         return "NULL" if is_ptr(ret) else "ZERO"
     if re.search(r'\)0$', v) or v == "0":
-        return "ZERO"
+        return "NULL" if is_ptr(ret) else "ZERO"
     raise SystemExit("unclassified failure value %r" % val)
 
 
@@ -155,20 +171,28 @@ def main():
     # exported symbols actually built (strings.c carries libc replacements that are compiled only where libc lacks them)
     declared = set()
     for h in [os.path.join(repo, "include", "libast.h")] + [os.path.join(repo, "include", "libast", x) for x in os.listdir(os.path.join(repo, "include", "libast")) if x.endswith(".h")]:
-        declared |= set(re.findall(r'^extern\s+[^;(]*?\b(\w+)\s*\(', strip_comments(open(h).read()), re.M))
+        declared |= {n for n in re.findall(r'^extern\s+[^;(]*?\b(\w+)\s*\(', strip_comments(open(h).read()), re.M)
+                     if not re.fullmatch(r'[A-Z_0-9]+', n)}           # SPIF_CLASS_VAR(x) etc. declare variables, not functions
     # ... and only what the pinned build really exports (some strings.c functions are compiled conditionally)
     lib = os.path.join(repo, "src", ".libs", "libast.a")
     if os.path.exists(lib):
         out = subprocess.run(["nm", "--defined-only", lib], capture_output=True, text=True).stdout
         built = set(re.findall(r"^[0-9a-f]+ T (\w+)$", out, re.M))
-        declared &= built
+    else:
+        raise SystemExit("the pinned tree must be built (src/.libs/libast.a) so that conditionally compiled functions can be told apart")
+    all_declared = set(declared)
+    declared &= built
+    seen_funcs, nopointer = set(), []
     for name in FILES:
         funcs, txt = parse_functions(repo, name)
         byname = {f["name"]: f for f in funcs}
         tables = class_tables(txt, members)
         units = []      # (function, via, classvar, member, iface)
         for f in funcs:
-            if not f["static"] and f["name"] in declared and f["name"].startswith("spif"):      # not the libc replacements (strnlen, memmem, ...)
+            if not f["static"] and f["name"] in declared:
+                seen_funcs.add(f["name"])
+                if not any(is_ptr(t) for t, n in f["params"]):
+                    nopointer.append(f["name"])
                 units.append((f, "direct", None, None, None))
         for var, iface, slots in tables:
             for member, fn in slots:
@@ -195,6 +219,11 @@ def main():
                         g = (kind, args[1] if len(args) > 1 else "void")
                         break
                 claimed, why, fail = False, "", None
+                if f["name"] in NOT_CALLABLE:
+                    rows.append(dict(file=f["file"], owner=OWNER[f["file"]], func=f["name"], via=via, classvar=var, member=member, iface=iface,
+                                     ret=f["ret"], params=f["params"], pos=i, pname=n, ptype=t, guard=g[0] if g else None,
+                                     fail=None, claimed=False, why="R7 not callable in the harness: " + NOT_CALLABLE[f["name"]]))
+                    continue
                 is_self = (i == 0 and n == "self" and is_method)
                 is_show = short == "show" or f["name"].endswith("_show")
                 is_comp = (member == "comp") or f["name"].endswith("_comp")
@@ -217,8 +246,15 @@ def main():
     for k, r in enumerate(rows):
         r["id"] = k + 1
         r["key"] = ("%s#%d" % (r["func"], r["pos"])) if r["via"] == "direct" else ("%s->%s#%d" % (re.sub(r'SPIF_(\w*)CLASS_VAR\((\w+)\)', lambda m: "%s.%sclass" % (m.group(2), m.group(1).lower()), r["classvar"]), r["member"], r["pos"]))
-    json.dump({"generated_from": "pinned sources (entry guards ASSERT_RVAL / REQUIRE_RVAL / SPIF_OBJ_COMP_CHECK_NULL), reviewed rules R1-R6",
-               "rows": rows}, open(os.path.join(verif, "spec", "NullGuardTable.json"), "w"), indent=1)
+    excluded = [{"name": n, "reason": "declared in include/ but not compiled in the pinned configuration (libc provides it / feature macro off)"}
+                for n in sorted(all_declared - built)]
+    excluded += [{"name": n, "reason": "exported and declared, but its definition was not recognised by the table generator - classify by hand"}
+                 for n in sorted(declared - seen_funcs)]
+    json.dump({"generated_from": "pinned sources (entry guards ASSERT_RVAL / REQUIRE_RVAL / SPIF_OBJ_COMP_CHECK_NULL), reviewed rules R1-R7",
+               "rows": rows,
+               "no_pointer_parameters": sorted(nopointer),      # exported entry points without a pointer parameter: nothing to pair with NULL
+               "excluded": excluded},
+              open(os.path.join(verif, "spec", "NullGuardTable.json"), "w"), indent=1)
     with open(os.path.join(verif, "spec", "NullGuardTable.tla"), "w") as f:
         f.write("---------------------------- MODULE NullGuardTable ----------------------------\n")
         f.write("(* C16 contract table, generated ONCE by tools/c16_gen_table.py from the pinned sources and reviewed;   *)\n")
@@ -231,7 +267,7 @@ def main():
         f.write("\n>>\n================================================================================\n")
     n = len(rows)
     c = sum(r["claimed"] for r in rows)
-    print("%d rows, %d claimed, %d not claimed" % (n, c, n - c))
+    print("%d rows, %d claimed, %d not claimed; %d entry points without pointer parameters, %d excluded" % (n, c, n - c, len(nopointer), len(excluded)))
 
 
 if __name__ == "__main__":
